@@ -192,6 +192,24 @@ def run(facts, R):
             if v["rule"] in keep and (keep[v["rule"]] is None or v.get("what") in keep[v["rule"]]):
                 R.bad("rejected-not-dispatched", v["fn"], v["what"], v["msg"], v.get("site"), v.get("path"))
 
+    # ---------------- same response on every transport: the TCP servers and the WebSocket inline path dispatch through the
+    # borrowing `handle_view`, the WebSocket off-reader path and middleware-wrapped routes through the owned `handle` /
+    # `handle_with_ctx`; a handler whose two paths disagree answers the same request differently depending on the transport.
+    # C07's handler-twins rule decides exactly that agreement (shared)
+    from analysis import report as _report7
+    from rules import C07 as _c07
+    sub7 = _report7.Report(R.prop, R.tier, R.config)
+    try:
+        _c07.run(facts, sub7)
+    except Exception as e:
+        sub7.bad("anchor-resolution", "<crate>", "shared-C07-rules", "the shared handler-twins rules could not run: %s" % e)
+    for inst in sub7.instances:
+        if inst["rule"] in ("handler-twins",) and inst["verdict"] == "holds":
+            R.instances.append(inst)
+    for v in sub7.violations:
+        if v["rule"] in ("handler-twins", "anchor-resolution"):
+            R.bad("transport-agreement", v["fn"], v["what"], v["msg"], v.get("site"), v.get("path"))
+
     # ---------------- id-echo ---------------------------------------------------------------------------------
     id_echo(facts, R)
     # ---------------- echo-rule twins --------------------------------------------------------------------------
@@ -275,7 +293,10 @@ def ws_reader(facts, R):
         cs = Sym(c)
         for i, t in dc:
             a = [render(cs.op(x)) for x in t["args"]]
-            R.check(a[0].endswith(".handler") and a[1].endswith(".request") and a[3].endswith(".notify"), "handler-once", c.path, "dispatch(handler, request, ctx, notify) of the captured request", "args %s" % a, t.get("span"))
+            def _names(x_, n_):
+                # the captured variable itself, or the field of a captured job struct (`job.handler`, captured by path as job__handler)
+                return x_.endswith("." + n_) or x_.endswith("__" + n_)
+            R.check(_names(a[0], "handler") and _names(a[1], "request") and _names(a[3], "notify"), "handler-once", c.path, "dispatch(handler, request, ctx, notify) of the captured request", "args %s" % a, t.get("span"))
     bs = [(i, t) for i, t in worker.calls() if t["callee"]["name"] == "blocking_send"]
     R.check(len(bs) == 1, "response-count", worker.path, "one enqueue", "found %d blocking_send" % len(bs), worker.span)
     for i, t in bs:
